@@ -833,3 +833,153 @@ Proof.
     symmetry in Etl. destruct (write_le_pinj _ _ _ _ _ _ _ I I Hlt Hlt' Etl) as [_ E].
     now destruct (write_le_pinj _ _ _ _ _ _ _ I I Hhb Hhb' E).
 Qed.
+
+(* ---- 7. from equal digests to equal hash inputs, or an explicit hash anomaly ------------------------------------ *)
+Lemma bytes_dec (a b : bytes) : a = b \/ a <> b.
+Proof.
+  destruct (bytes_eqb a b) eqn:E; [left; now apply bytes_eqb_eq|right].
+  intros H. apply bytes_eqb_eq in H. congruence.
+Qed.
+
+Definition mid_key : Type := bytes * N * bytes * N * N.
+Definition mid_enc (k : mid_key) : outcome bytes :=
+  let '(h, i, sc, am, sq) := k in
+  bind (stream_L i) (fun pi => bind (stream_varstr sc) (fun s => bind (stream_Q am) (fun a =>
+  bind (stream_L sq) (fun q => Ret (h ++ pi ++ s ++ a ++ q))))).
+Definition mid_wf (k : mid_key) : Prop := let '(h, _, _, _, _) := k in length h = 32%nat.
+
+Lemma mid_enc_pinj : pinj mid_wf mid_enc (fun k => k).
+Proof.
+  intros [[[[h i] sc] am] sq] [[[[h' i'] sc'] am'] sq'] p p' r r' Q Q' H H' E. unfold mid_enc in H, H'.
+  inv_bind_as H a Ha. inv_bind_as H s Hs. inv_bind_as H m Hm. inv_bind_as H q Hq. injection H as <-.
+  inv_bind_as H' a' Ha'. inv_bind_as H' s' Hs'. inv_bind_as H' m' Hm'. inv_bind_as H' q' Hq'. injection H' as <-.
+  rewrite <- !app_assoc in E. cbn in Q, Q'.
+  apply app_inj_len in E; [|lia]. destruct E as [Eh E].
+  destruct (write_le_pinj _ _ _ _ _ _ _ I I Ha Ha' E) as [Ei E1].
+  destruct (varstr_pinj _ _ _ _ _ _ I I Hs Hs' E1) as [Es E2].
+  destruct (write_le_pinj _ _ _ _ _ _ _ I I Hm Hm' E2) as [Em E3].
+  destruct (write_le_pinj _ _ _ _ _ _ _ I I Hq Hq' E3) as [Eq E4].
+  cbn beta in *. subst. auto.
+Qed.
+
+Lemma segwit_fed_shape t sc am idx ht s :
+  segwit_fed_of t sc am idx ht = Ret s ->
+  exists x lk hb, nth_error (tx_ins t) idx = Some x
+    /\ stream_L (tx_version t) = Ret (sf_head s)
+    /\ mid_enc (ti_hash x, ti_index x, sc, am, ti_seq x) = Ret (sf_mid s)
+    /\ stream_L (tx_lock t) = Ret lk /\ stream_L ht = Ret hb /\ sf_tail s = lk ++ hb.
+Proof.
+  intros H. unfold segwit_fed_of in H.
+  inv_bind_as H v Hv. inv_bind_as H hp Hhp. inv_bind_as H hs Hhs.
+  destruct (nth_error (tx_ins t) idx) as [x|] eqn:Ex; [|discriminate].
+  inv_bind_as H pi Hpi. inv_bind_as H s0 Hsc. inv_bind_as H a Ham. inv_bind_as H sq Hsq.
+  inv_bind_as H ho Hho. inv_bind_as H lk Hlt. inv_bind_as H hb Hhb. injection H as <-.
+  exists x, lk, hb. cbn. repeat split; auto.
+  unfold mid_enc. rewrite Hpi, Hsc, Ham, Hsq. reflexivity.
+Qed.
+
+Section Digest.
+Variable dsha256 : bytes -> bytes.
+Hypothesis dsha256_len : forall x, length (dsha256 x) = 32%nat.
+
+Definition opt_list (o : option bytes) : list bytes := match o with Some b => [b] | None => [] end.
+
+(* every byte string that is hashed while the digest of f is computed *)
+Definition feeds (f : fed) : list bytes :=
+  match f with
+  | Fed_none => []
+  | Fed_legacy b => [b]
+  | Fed_segwit s => segwit_assemble dsha256 s :: opt_list (sf_prevouts s) ++ opt_list (sf_sequences s)
+                    ++ opt_list (sf_outputs s)
+  end.
+
+(* what has to be exhibited for two different hash inputs to give one digest: two distinct hashed strings with
+   the same hash, or a hashed string whose hash is one of the two constants pycoin writes in place of a hash *)
+Definition hash_anomaly (f f' : fed) : Prop :=
+  (exists x y, In x (feeds f) /\ In y (feeds f') /\ x <> y /\ dsha256 x = dsha256 y)
+  \/ (exists x, In x (feeds f ++ feeds f')
+                /\ (dsha256 x = gen06_zero32 \/ dsha256 x = be_encode 32 single_value)).
+
+Lemma sub_hash_length o : length (sub_hash dsha256 o) = 32%nat.
+Proof. destruct o; cbn; [apply dsha256_len|reflexivity]. Qed.
+
+Lemma sub_hash_inj o o' :
+  sub_hash dsha256 o = sub_hash dsha256 o' ->
+  o = o'
+  \/ (exists x y, In x (opt_list o) /\ In y (opt_list o') /\ x <> y /\ dsha256 x = dsha256 y)
+  \/ (exists x, In x (opt_list o ++ opt_list o') /\ dsha256 x = gen06_zero32).
+Proof.
+  destruct o as [b|], o' as [b'|]; cbn; intros H.
+  - destruct (bytes_dec b b') as [->|N]; [now left|]. right; left. exists b, b'. cbn. auto.
+  - right; right. exists b. cbn. auto.
+  - right; right. exists b'. cbn. auto.
+  - now left.
+Qed.
+
+Lemma segwit_assemble_inj t sc am t' sc' am' idx ht ht' s s' :
+  wf_tx t -> wf_tx t' ->
+  segwit_fed_of t sc am idx ht = Ret s -> segwit_fed_of t' sc' am' idx ht' = Ret s' ->
+  segwit_assemble dsha256 s = segwit_assemble dsha256 s' ->
+  s = s' \/ hash_anomaly (Fed_segwit s) (Fed_segwit s').
+Proof.
+  intros W W' H H' E.
+  destruct (segwit_fed_shape _ _ _ _ _ _ H) as (x & lk & hb & Ex & Hv & Hm & Hlk & Hhb & Et).
+  destruct (segwit_fed_shape _ _ _ _ _ _ H') as (x' & lk' & hb' & Ex' & Hv' & Hm' & Hlk' & Hhb' & Et').
+  assert (Wx : wf_in x) by (unfold wf_tx in W; rewrite Forall_forall in W; apply W; eapply nth_error_In; eauto).
+  assert (Wx' : wf_in x') by (unfold wf_tx in W'; rewrite Forall_forall in W'; apply W'; eapply nth_error_In; eauto).
+  unfold segwit_assemble in E.
+  apply app_inj_len in E; [|apply write_le_length in Hv, Hv'; unfold stream_L in *; lia]. destruct E as [E1 E].
+  apply app_inj_len in E; [|now rewrite !sub_hash_length]. destruct E as [E2 E].
+  apply app_inj_len in E; [|now rewrite !sub_hash_length]. destruct E as [E3 E].
+  destruct (mid_enc_pinj (ti_hash x, ti_index x, sc, am, ti_seq x) (ti_hash x', ti_index x', sc', am', ti_seq x')
+              _ _ _ _ Wx Wx' Hm Hm' E) as [Ek E'].
+  assert (E4 : sf_mid s = sf_mid s') by (rewrite Ek in Hm; congruence).
+  apply app_inj_len in E'; [|now rewrite !sub_hash_length]. destruct E' as [E5 E6].
+  destruct (sub_hash_inj _ _ E2) as [P|P]; [|right].
+  - destruct (sub_hash_inj _ _ E3) as [S|S]; [|right].
+    + destruct (sub_hash_inj _ _ E5) as [O|O]; [|right].
+      * left. destruct s, s'; cbn in *. congruence.
+      * destruct O as [(a & b & Ia & Ib & N & C)|(a & Ia & C)].
+        -- left. exists a, b. cbn [feeds]. repeat split; auto; right; rewrite !in_app_iff; auto.
+        -- right. exists a. split; [|now left]. cbn [feeds]. rewrite in_app_iff in Ia. rewrite in_app_iff.
+           destruct Ia as [Ia|Ia]; [left|right]; right; rewrite !in_app_iff; auto.
+    + destruct S as [(a & b & Ia & Ib & N & C)|(a & Ia & C)].
+      * left. exists a, b. cbn [feeds]. repeat split; auto; right; rewrite !in_app_iff; auto.
+      * right. exists a. split; [|now left]. cbn [feeds]. rewrite in_app_iff in Ia. rewrite in_app_iff.
+        destruct Ia as [Ia|Ia]; [left|right]; right; rewrite !in_app_iff; auto.
+  - destruct P as [(a & b & Ia & Ib & N & C)|(a & Ia & C)].
+    + left. exists a, b. cbn [feeds]. repeat split; auto; right; rewrite !in_app_iff; auto.
+    + right. exists a. split; [|now left]. cbn [feeds]. rewrite in_app_iff in Ia. rewrite in_app_iff.
+      destruct Ia as [Ia|Ia]; [left|right]; right; rewrite !in_app_iff; auto.
+Qed.
+
+Theorem digest_binds sv ht idx c c' f f' :
+  wf_ctx c -> wf_ctx c' ->
+  fed_of sv ht idx c = Ret f -> fed_of sv ht idx c' = Ret f' ->
+  digest_of dsha256 f = digest_of dsha256 f' ->
+  f = f' \/ hash_anomaly f f'.
+Proof.
+  intros W W' H H' D. destruct sv; unfold fed_of in H, H'.
+  - inv_bind_as H o Ho. inv_bind_as H' o' Ho'. injection H as <-. injection H' as <-.
+    destruct o as [b|], o' as [b'|]; cbn in D.
+    + destruct (bytes_dec b b') as [->|N]; [now left|]. right; left. exists b, b'. cbn. auto.
+    + right; right. exists b. cbn. auto.
+    + right; right. exists b'. cbn. auto.
+    + now left.
+  - inv_bind_as H s Hs. inv_bind_as H' s' Hs'. injection H as <-. injection H' as <-. cbn in D.
+    destruct (bytes_dec (segwit_assemble dsha256 s) (segwit_assemble dsha256 s')) as [E|N].
+    + destruct (segwit_assemble_inj _ _ _ _ _ _ _ _ _ _ _ W W' Hs Hs' E) as [->|A]; auto.
+    + right; left. exists (segwit_assemble dsha256 s), (segwit_assemble dsha256 s'). cbn. auto.
+Qed.
+
+Theorem digest_commits sv ht idx c c' f f' :
+  wf_ctx c -> wf_ctx c' -> in_range idx c -> in_range idx c' ->
+  fed_of sv ht idx c = Ret f -> fed_of sv ht idx c' = Ret f' ->
+  digest_of dsha256 f = digest_of dsha256 f' ->
+  agree sv ht idx c c' \/ hash_anomaly f f'.
+Proof.
+  intros W W' L L' H H' D.
+  destruct (digest_binds _ _ _ _ _ _ _ W W' H H' D) as [<-|A]; [left|now right].
+  eapply commitment_injective; eauto.
+Qed.
+End Digest.
